@@ -430,6 +430,8 @@ class EquationSolver(object):
                 except (ZeroDivisionError, OverflowError, ValueError) as er:
                     # Cannot step over an error here: there is no further iteration.
                     raise ValueError('Error evaluating variable {0}. Error message: {1}'.format(var, str(er)))
+                if isinstance(val, float) and not isfinite(val):
+                    raise ConvergenceError('Non-finite value for variable {0} - step {1}'.format(var, step))
                 initial[var] = val
                 decoration_values.append((var, val))
             # If we failed on every single decoration variable, something is wrong.
